@@ -573,16 +573,20 @@ SITES = [
 
 def falsify_c11_subst(ctx, asm):
     rng = ctx.rng
-    rounds = 2 if ctx.quick() else 12
+    rounds = 3 if ctx.quick() else 12
     for r in range(rounds):
         for tmpl, kind in SITES:
             if kind == 'reg':
-                reg = rng.choice(['x8', 'x9', 's0', 'a0', 'x15', 't0', 'x1', 'sp', '8', '15'])
+                # round 0: the constant whose VALUE is 0 (x0 / zero / 0 -- falsy in Python: seeded change C11-r4)
+                reg = rng.choice(['x0', 'zero', '0']) if r == 0 else \
+                    rng.choice(['x8', 'x9', 's0', 'a0', 'x15', 't0', 'x1', 'sp', '8', '15', 'x0', 'zero', 'x31', 't6'])
                 defn, lit_ = reg, reg
             else:
                 v = {'int': rng.choice([0, 1, 4, 8, 16, 124, 2047, -1, -8, -2048, 31, 5]),
-                     'sh': rng.choice([1, 3, 5, 31]), 'byte': rng.choice([0, 1, 127, 255]),
-                     'small': rng.choice([1, 4, -1, 16, 31, -32])}[kind]
+                     'sh': rng.choice([0, 1, 3, 5, 31]), 'byte': rng.choice([0, 1, 127, 255]),
+                     'small': rng.choice([1, 4, -1, 16, 31, -32, 0])}[kind]
+                if r == 0 and not tmpl.startswith('c.'):
+                    v = 0
                 if tmpl.startswith(('lui', 'auipc')) and '%' not in tmpl:
                     v = abs(v)
                 if tmpl.startswith(('lw', 'sw', 'c.')) and v < 0 and kind != 'small':
